@@ -166,7 +166,8 @@ fn guess_frequency(raw_freq: f64, base_guess: f64, tolerance: f64) -> Option<f64
     }
     let normalized = raw_freq / multiplier;
     if (normalized - base_guess).abs() <= base_guess * tolerance {
-        Some(base_guess)
+        // the rate is within tolerance of `multiplier` times the base frequency
+        Some(base_guess * multiplier)
     } else {
         None
     }
